@@ -200,7 +200,7 @@ let f _id vs =
       let md = nat_of_int (as_int maxdepth) in
       let fuel = nat_of_int (List.length ats + 3) in
       let recursive = lazy (model_recursive m) in
-      let has_e = lazy (List.exists (fun t -> t.t_ceval = E && valid_for_read m cs t) store) in
+      let has_e = lazy (List.exists (fun t -> t.t_ceval = E) store) in (* valid or not: engines differ in what they evaluate first *)
       let props = ref [] and knowns = ref [] in
       List.iter (fun mv ->
           match as_list mv with
@@ -251,7 +251,12 @@ let f _id vs =
                 | Some fl -> knowns := (fl ^ " " ^ where) :: !knowns
                 | None -> props := where :: !props)
           | _ -> failwith "mismatch entry") mms;
-      (match List.rev !props, List.rev !knowns with
+      (* one verdict per scenario: the rarer findings first *)
+      let prio k =
+        let rec idx i = function [] -> i | p :: l -> if String.length k >= String.length p && String.sub k 0 (String.length p) = p then i else idx (i + 1) l in
+        idx 0 ["lo_cache_key_without_ctx"; "sorted_dedup_by_object"; "wg_cache_visited"; "excl_sub_cycle"; "cond_err_swallowed";
+               "cond_err_order_dependent"; "ctx_lenient_condition"; "lo_wildcard_empty_user_filter"] in
+      (match List.rev !props, List.sort (fun a b -> compare (prio a) (prio b)) (List.rev !knowns) with
        | p :: _, _ -> "PROP " ^ p
        | [], k :: _ -> "KNOWN " ^ k
        | [], [] -> "OK")
